@@ -40,7 +40,8 @@ def parse_gotype(src, structs=()):
         return {"g": src, "name": b(src), "sname": ""}
     if src == "Enum":
         return {"g": "int64", "name": b("Enum"), "sname": ""}
-    TYPEDEFS = {"MyI32": "int32", "MyI64": "int64", "MyStr": "string", "MyBool": "bool", "MyF64": "float64", "MyI8": "int8"}
+    TYPEDEFS = {"MyI32": "int32", "MyI64": "int64", "MyStr": "string", "MyBool": "bool", "MyF64": "float64", "MyI8": "int8",
+                "My_Str": "string", "My_Enum": "int64", "EnumI": "int", "MyInt": "int"}
     if src in TYPEDEFS:
         return {"g": TYPEDEFS[src], "name": b(src), "sname": ""}
     if re.match(r"^[A-Za-z_][A-Za-z0-9_]*$", src):
